@@ -324,6 +324,11 @@ def _job(idx):
         out["verdict"], out["backend"] = "proved", "cvc5"
         return out
     if f["result"] == "sat":
+        # last resort before a grounded-only candidate is reported: prove mode with three times the budget (verdicts must not flip under load)
+        r3 = _check(full, budget_ms * 3)
+        log.append(("z3-prove-3", r3["result"], round(r3["time"], 3)))
+        if r3["result"] == "unsat":
+            return proved("z3")
         out["verdict"], out["model"], out["probes"] = "refuted", f.get("model", {}), f.get("probes", {})
     else:
         out["verdict"], out["reason"] = "unknown", f.get("reason") or r2.get("reason")
